@@ -11,12 +11,15 @@ PKG_V = "vcr/verifier"
 HARNESS_V = ["vcr/verifier/zz_verif_c11v_test.go"]
 PKG_A = "vcr"
 HARNESS_A = ["vcr/zz_verif_c11a_test.go"]
-HARNESSES = [(PKG, HARNESS, "c11"), (PKG_V, HARNESS_V, "c11v"), (PKG_A, HARNESS_A, "c11a")]
+PKG_I = "vcr/issuer"
+HARNESS_I = ["vcr/issuer/zz_verif_c11i_test.go"]
+HARNESSES = [(PKG, HARNESS, "c11"), (PKG_V, HARNESS_V, "c11v"), (PKG_A, HARNESS_A, "c11a"), (PKG_I, HARNESS_I, "c11i")]
 
 REQUIRED = ["entries_injective", "einv_fresh", "bit_set_get", "bit_total", "served_list_signed_and_fresh", "list_signed_in_same_transaction",
             "set_monotone", "served_bit_never_cleared", "revoke_idempotent", "revoked_forever_network", "revocation_before_credential",
             "revocation_event_stored_or_retried", "redelivered_revocation_effective", "fact_ambassador_transient_errors",
-            "issuer_only", "stored_revocations_accepted", "network_revocation_is_by_issuer", "forged_revocations_rejected",
+            "first_revocation_entry_is_first_relevant", "issuer_revoke_status_list_effective", "issuer_network_revocation_accepted",
+            "fact_issuer_ambassador_store_sites", "issuer_only", "stored_revocations_accepted", "network_revocation_is_by_issuer", "forged_revocations_rejected",
             "foreign_prefix_witness", "issuer_only_stmt_false", "issuer_only_partial", "nuts_validators_enforce_prefix",
             "credential_never_panics", "revoked_forever_local", "revoke_effective", "revoked_forever_remote", "refresh_after_revocation_pins",
             "cache_sound", "status_only_from_named_list", "update_refuses_other_list", "fact_bitstring_arithmetic", "fact_constants",
@@ -42,6 +45,7 @@ def oracle(ctx, ops, impl, max_index, min_left_min):
     seen_revoked = set()  # (node, list, idx) a verify on that node answered revoked
     hosted_valid = {}     # foreign url -> union of the bits of every valid revocation list ever hosted there in this scenario
     hosted_now = {}       # foreign url -> what it serves now
+    cached_foreign = {}   # (node, url, idx) -> True while a valid list with that bit was downloaded and the host has not served another valid list since
     stats = Counter()
     bad = []
 
@@ -59,10 +63,13 @@ def oracle(ctx, ops, impl, max_index, min_left_min):
         if line.startswith("panic:") or " panic:" in line:
             report("C11:panic", f"operation {kind} panicked: {line[:200]}", i)
         if kind == "reset":
-            issued, revoked, served, seen_revoked, hosted_valid, hosted_now = {}, {}, {}, set(), {}, {}
+            issued, revoked, served, seen_revoked, hosted_valid, hosted_now, cached_foreign = {}, {}, {}, set(), {}, {}, {}
         elif kind == "host":
             h = op["host"]
             hosted_now[h["url"]] = h
+            if h["kind"] in ("ok", "noexp", "suspension"):   # a different list that verifies may legitimately replace the cached one
+                for k3 in [k3 for k3 in cached_foreign if k3[1] == h["url"]]:
+                    del cached_foreign[k3]
             if (h.get("len") or 0) > 16384:
                 stats["hosted-lists-larger-than-16kB"] += 1
             if h["kind"] in ("ok", "noexp"):
@@ -154,6 +161,13 @@ def oracle(ctx, ops, impl, max_index, min_left_min):
                 lst = s["list"]
                 name = f"n{lst['node']}/{lst.get('issuer','')}/{lst.get('page',0)}" if lst["node"] >= 0 else "raw:" + lst.get("raw", "")
                 key = (node, name, int(s["idx"]))
+                if lst["node"] < 0:
+                    k3 = (node, lst.get("raw", ""), int(s["idx"]))
+                    if v == "revoked":
+                        cached_foreign[k3] = True
+                    elif k3 in cached_foreign:
+                        report("C11:cached-revocation-lost-after-failed-refresh",
+                               f"{k3}: revoked before; since then the host only served failures / lists that do not verify; answer {v}", i)
                 if v == "revoked":
                     # honoured only from the list the credential names: the bit must really be revoked on the hosting node
                     if lst["node"] >= 0 and int(s["idx"]) not in revoked.get((lst["node"], name), set()):
@@ -281,6 +295,10 @@ def aoracle(ops, impl):
         kind = op.get("op")
         if "panic:" in line:
             report("C11:panic", f"{line[:200]}", i)
+        if kind == "awire":
+            stats["wiring-checks"] += 1
+            if line != "awire vcr_revocations:[rev=stored vc=- txevent=-] vcr_vcs:[rev=- vc=- txevent=-]":
+                report("C11:ambassador-wiring:revocation-events-do-not-reach-RegisterRevocation-or-others-do", line[:300], i)
         if kind == "areset":
             stored = set()
         elif kind == "adeliver":
@@ -300,6 +318,82 @@ def aoracle(ops, impl):
             stats["verify"] += 1
             if (line == "averify revoked") != (op["id"] in stored):
                 report("C11:revocation-not-effective-or-not-permanent" if op["id"] in stored else "C11:revoked-without-revocation", f"{op['id']} {line}", i)
+    return stats, bad
+
+
+def ioracle(ops, impl):
+    """the real issuer + verifier of one node: Issue (id prefix, one status entry, unique position), Revoke (route, document,
+    once), Verify (revoked exactly when the node knows: bit set locally / revocation delivered)"""
+    stats = Counter()
+    bad = []
+    creds = []      # per scenario: dict(issuer, status, route_done, known_to_verifier)
+    positions = set()
+
+    def report(sig, what, i):
+        if sig not in [b[0] for b in bad]:
+            bad.append((sig, what, i))
+
+    for i, line in enumerate(impl):
+        if i >= len(ops) or not ops[i]:
+            continue
+        op = json.loads(ops[i])
+        kind = op.get("op")
+        if "panic:" in line:
+            report("C11:panic", line[:200], i)
+        if kind == "ireset":
+            creds, positions = [], set()
+        elif kind == "iissue":
+            stats["issue"] += 1
+            m = re.match(r"iissue ok k=(\d+) idprefix=(\w+) status=(\S+)$", line)
+            if not m:
+                report("C11:issue-failed", line[:200], i)
+                creds.append(None)
+                continue
+            if m.group(2) != "true":
+                report("C11:issued-credential-id-not-prefixed-by-issuer", line, i)
+            st = m.group(3)
+            if op.get("statuslist"):
+                mm = re.fullmatch(r"StatusList2021Entry/revocation#(.+)/(\d+)#(\d+)", st)
+                if not mm or mm.group(1) != op["issuer"]:
+                    report("C11:issued-credential-without-its-own-revocation-entry", line, i)
+                elif (mm.group(1), mm.group(2), mm.group(3)) in positions:
+                    report("C11:status-list-position-handed-out-twice", line, i)
+                else:
+                    positions.add((mm.group(1), mm.group(2), mm.group(3)))
+            elif st != "none":
+                report("C11:unrequested-status-entry", line, i)
+            creds.append({"issuer": op["issuer"], "sl": bool(op.get("statuslist")), "revoked_by_issuer": False, "known": False})
+        elif kind == "irevoke":
+            c = creds[op["k"]] if op["k"] < len(creds) else None
+            if c is None:
+                continue
+            stats["revoke"] += 1
+            nuts = c["issuer"].startswith("did:nuts:")
+            if c["revoked_by_issuer"]:
+                if line != "irevoke revoked":
+                    report("C11:issuer-revoke-not-idempotent", f"second revoke answered {line}", i)
+                continue
+            if nuts:
+                want = "irevoke ok net subject=true issuer=true published=1" + (" register=ok" if op.get("deliver") else "")
+                if line != want:
+                    report("C11:issuer-network-revocation-wrong:" + ("route" if " net " not in line + " " else "document-or-acceptance"),
+                           f"expected '{want}', got '{line}'", i)
+                c["revoked_by_issuer"] = True
+                c["known"] = c["known"] or bool(op.get("deliver"))
+            else:
+                if line != "irevoke ok statuslist":
+                    report("C11:issuer-status-list-revocation-wrong-route-or-failed", f"{line}", i)
+                c["revoked_by_issuer"] = True
+                c["known"] = True
+        elif kind == "iverify":
+            c = creds[op["k"]] if op["k"] < len(creds) else None
+            if c is None:
+                continue
+            stats["verify"] += 1
+            if c["known"] and line != "iverify revoked":
+                report("C11:issuer-revocation-not-effective", f"credential {op['k']} of {c['issuer']} was revoked and the node knows it; answer {line}", i)
+            if not c["known"] and line != "iverify ok":
+                report("C11:revoked-without-revocation", f"credential {op['k']}: {line}", i)
     return stats, bad
 
 
@@ -437,17 +531,20 @@ def run(ctx):
             first = [l for l in f.read().split("\n") if l.strip()][:1]
         replay_is_v = bool(first) and json.loads(first[0]).get("op", "").startswith("v")
         replay_is_a = bool(first) and json.loads(first[0]).get("op", "").startswith("a")
+        replay_is_i = bool(first) and json.loads(first[0]).get("op", "").startswith("i")
     else:
-        replay_is_a = False
+        replay_is_a = replay_is_i = False
 
-    vres = ares = None
+    vres = ares = ires = None
+    if not ctx.replay or replay_is_i:
+        ires = run_side_harness(ctx, PKG_I, HARNESS_I, "c11i", "TestVerifC11i", "ireset", ioracle, 40, 400)
     if not ctx.replay or replay_is_v:
         vres = run_verifier_harness(ctx)
     if not ctx.replay or replay_is_a:
         ares = run_side_harness(ctx, PKG_A, HARNESS_A, "c11a", "TestVerifC11a", "areset", aoracle, 60, 600)
-    if ctx.replay and (replay_is_v or replay_is_a):
-        ctx.cov["evaluations"] = (vres or ares or {}).get("lines", 0)
-        ctx.cov["input_distribution"] = {"verifier_harness": vres, "ambassador_harness": ares}
+    if ctx.replay and (replay_is_v or replay_is_a or replay_is_i):
+        ctx.cov["evaluations"] = (vres or ares or ires or {}).get("lines", 0)
+        ctx.cov["input_distribution"] = {"verifier_harness": vres, "ambassador_harness": ares, "issuer_harness": ires}
         return
 
     binary = ctx.go_test_binary(PKG, HARNESS, "c11")
@@ -492,7 +589,7 @@ def run(ctx):
 
     kinds = Counter(json.loads(o).get("op") for o in ops if o)
     outcomes = Counter(re.sub(r"n\d/\S+|\[[^\]]*\]|\d+", "_", l)[:60] for l in impl)
-    vlines = (vres or {}).get("lines", 0) + (ares or {}).get("lines", 0)
+    vlines = (vres or {}).get("lines", 0) + (ares or {}).get("lines", 0) + (ires or {}).get("lines", 0)
     ctx.cov["evaluations"] = len(impl) + vlines
     ctx.cov["distinct_nontrivial"] = len(set(l for l in impl if l not in ("reset", "tick", "host", "bump 0", "record none")
                                              and "err:notfound" not in l)) + len((vres or {}).get("outcomes", {}))
@@ -508,5 +605,5 @@ def run(ctx):
                        "leia store with injected StoreRevocation faults (context deadline/cancel wrapped 0-3 times, other error), re-delivery, Verify. distinct_nontrivial = distinct output lines that are not "
                        "reset/tick/not-found")
     ctx.cov["input_distribution"] = {"ops": dict(kinds), "features": dict(stats), "outcome_shapes": dict(outcomes.most_common(40)),
-                                     "verifier_harness": vres, "ambassador_harness": ares}
+                                     "verifier_harness": vres, "ambassador_harness": ares, "issuer_harness": ires}
     ctx.cov["samples"] = [ops[len(ops) // 2][:300] if ops else "", impl[len(impl) // 2][:300] if impl else ""]
